@@ -59,3 +59,11 @@ EXTRACT ("C12", m33_extractSHRT, "M33.extractSHRT",
 EXTRACT ("C12", m33_sansScaling, "M33.sansScaling", { IN (Matrix33, m); c.out (sansScaling (m, false)); })
 EXTRACT ("C12", m33_sansScalingExc, "M33.sansScalingExc", { IN (Matrix33, m); c.out (sansScaling (m, true)); })
 EXTRACT ("C12", m33_removeScaling, "M33.removeScaling", { IN (Matrix33, m); bool ok = removeScaling (m, false); c.outB (ok); c.out (m); })
+
+// ---------------------------------------------------------------- recomposition tails (1 path each)
+// The statement sequences with which sansScaling / removeScaling / computeRSMatrix rebuild their result, run on
+// free inputs.  The theorems about the wrappers first show `wrapper = tail (factors)` (fast: identical DAGs) and then
+// use the algebraic theorem about the tail; the wrappers themselves are extracted from the real functions above.
+EXTRACT ("C12", m44_composeTRH, "M44.composeTRH", { IN (Vec3, t); IN (Vec3, r); IN (Vec3, h); Matrix44<T> M; M.translate (t); M.rotate (r); M.shear (h); c.out (M); })
+EXTRACT ("C12", m44_composeTRS, "M44.composeTRS", { IN (Vec3, t); IN (Vec3, r); IN (Vec3, s); Matrix44<T> M; M.makeIdentity (); M.translate (t); M.rotate (r); M.scale (s); c.out (M); })
+EXTRACT ("C12", m33_composeTRH, "M33.composeTRH", { IN (Vec2, t); T r = c.inS ("r"); T h = c.inS ("h"); Matrix33<T> M; M.translate (t); M.rotate (r); M.shear (h); c.out (M); })
